@@ -36,7 +36,7 @@ RULE = ("one case = one round: k goroutines (quick 4, thorough 8) started behind
         "digest is a failure by itself. distinct_nontrivial = distinct (GOMAXPROCS, workload#instance per goroutine) "
         "assignments; every round is non-trivial (>= 2 goroutines working concurrently). When the obligation is broken the "
         "workloads of the package named by the non-benign inventory entry run first, alone (batches cold-directed, race-directed), "
-        "sync-free workloads (hashtables-nosync, sets-nosync: no call takes a package-level lock, so no incidental happens-before edge can "
+        "sync-free workloads (hashtables-nosync, sets-nosync, hashfuncs: no call takes a package-level lock, so no incidental happens-before edge can "
         "hide a race) among them, and an escalation pass with the thorough tier's budgets runs before a broken obligation is "
         "reported with no failing schedule. "
         "`cold` cases: the harness re-executes itself so that each workload is the FIRST thing a fresh process does (k goroutines "
@@ -58,12 +58,12 @@ ASSUMPTIONS = [
 
 # which workloads exercise a package (used to direct the search when the obligation names a variable)
 ALL_WL = ["hashtables", "ordered", "sets", "tries", "heaps", "sorts", "first-follow", "transforms", "predictive", "slr",
-          "lalr", "lr1", "helpers", "misc", "automata", "hashtables-nosync", "sets-nosync"]
+          "lalr", "lr1", "helpers", "misc", "automata", "hashtables-nosync", "sets-nosync", "hashfuncs"]
 PKG_WL = {
     "trie": ["tries"], "symboltable": ["hashtables-nosync", "hashtables", "ordered", "helpers"], "set": ["sets-nosync", "sets", "first-follow"],
     "heap": ["heaps"], "sort": ["sorts"], "radixsort": ["sorts"], "unionfind": ["sorts"], "list": ["misc", "slr"],
     "graph": ["misc"], "lexer/input": ["misc"], "lexer": ["misc", "predictive", "slr"], "dot": ["heaps", "tries", "ordered", "automata", "misc", "slr", "predictive"],
-    "hash": ["helpers", "hashtables", "hashtables-nosync", "first-follow", "automata"], "automata": ["automata", "helpers"],
+    "hash": ["hashfuncs", "helpers", "hashtables", "hashtables-nosync", "first-follow", "automata"], "automata": ["automata", "helpers"],
     "grammar": ["first-follow", "transforms", "helpers", "predictive", "slr"], "errors": ["first-follow", "slr", "predictive"],
     "parser": ["predictive", "slr", "lalr", "lr1"], "parser/predictive": ["predictive"], "parser/lr": ["slr", "lalr", "lr1", "helpers"],
     "parser/lr/simple": ["slr"], "parser/lr/lookahead": ["lalr"], "parser/lr/canonical": ["lr1"], "generic": ALL_WL,
